@@ -102,6 +102,7 @@ DEPTH = {"quick": 4, "thorough": 5}
 JUDGE_GPX_NONGEO_ELEVATION = True      # the statement says "whatever the ... coordinate system chosen"
 
 OBLIGATIONS = {
+    "network_read_from_a_file_then_moved": "a network read from CSV was moved in place, written again and read back",
     "second_file_of_a_multi_file_gpx_export": "the second file written by writeToGpx(collection, directory, oneFile=False) was read back",
     "non_identity_layout_read_back": "a file with a non-identity column order was read back and judged",
     "layout_without_U": "a layout without the U column was read back",
@@ -669,6 +670,36 @@ def check_net(case, ctx):
         ctx.violation(site + "/global-format-not-restored", case, None)
         return
     ctx.outcome(("net", len(edges), h, sep, srid))
+    if srid != "ENU":
+        return
+    # ---- the network that was just read has a past (it came from a file): moved in place, written and read again -----
+    DX, DY = 16.0, -8.0
+
+    def second_leg():
+        fmt = NetworkFormat({"pos_edge_id": 0, "pos_source": 1, "pos_target": 2, "pos_direction": 3, "pos_wkt": 4,
+                             "separator": sep, "header": h, "srid": srid})
+        net2 = NetworkReader.readFromFile(_path(name), fmt, verbose=False)
+        coords = {}                      # every distinct coordinate object of the network, once (nodes may share theirs with a vertex)
+        for eid in net2.EDGES:
+            e = net2.EDGES[eid]
+            for c in [o.position for o in e.geom] + [e.source.coord, e.target.coord]:
+                coords[id(c)] = c
+        for c in coords.values():
+            c.translate(DX, DY)
+        NetworkWriter.writeToCsv(net2, _path("n2.csv"), separator=sep, h=h)
+        return _extract_net(NetworkReader.readFromFile(_path("n2.csv"), fmt, verbose=False))
+    r2 = _g(second_leg)
+    ctx.transition(2)
+    ctx.oblige("network_read_from_a_file_then_moved")
+    site2 = site + "/network-read-from-a-file-moved-and-written-again"
+    if r2[0] != "ok":
+        ctx.violation("%s/%s" % (site2, "does-not-return" if r2[0] == "hang" else "raises"), case, r2[1])
+        return
+    M2 = {"edges": [[e[0], e[1], e[2], e[3], [x + DX for x in e[4]], [y + DY for y in e[5]]] for e in M["edges"]],
+          "nodes": {k: [v_[0] + DX, v_[1] + DY] for k, v_ in M["nodes"].items()}}
+    why = judge_net(M2, r2[1], h)
+    if why:
+        ctx.violation("%s/%s" % (site2, why), case, {"expected_first_edge": M2["edges"][0][4:], "read": [e[4:] for e in r2[1]["edges"]][:1]})
 
 
 # ---- WKT -------------------------------------------------------------------------------------
